@@ -97,7 +97,12 @@ def run(ctx):
     lam_assign = [
         n
         for n in iter_own(es.node)
-        if isinstance(n, ast.Assign) and len(n.targets) == 1 and norm(n.targets[0]) == "emitter"
+        # the local holding the dispatched emitter: the one assignment whose value sanitises emit_name and getattr()s
+        if isinstance(n, ast.Assign)
+        and len(n.targets) == 1
+        and isinstance(n.targets[0], ast.Name)
+        and "sanitise_emit_name(emit_name)" in norm(n.value)
+        and "getattr(" in norm(n.value)
     ]
     ctx.need(len(lam_assign) == 1, "emitter lookup vanished from _emit_symbol")
     from ..dispatch import eval_return
@@ -124,9 +129,12 @@ def run(ctx):
     gt = index.func("cdd.shared.conformance.ground_truth")
     table = None
     for n in iter_own(gt.node):
-        if isinstance(n, ast.Assign) and norm(n.targets[0]) == "arg2parse_emit_type" and isinstance(n.value, ast.Dict):
+        # the kind table of ground_truth: the dict literal that is subscripted by args.truth, whatever it is called
+        if isinstance(n, ast.Assign) and isinstance(n.targets[0], ast.Name) and isinstance(n.value, ast.Dict) and any(
+            isinstance(x, ast.Subscript) and norm(x.value) == n.targets[0].id and norm(x.slice).endswith(".truth") for x in iter_own(gt.node)
+        ):
             table = [k.value for k in n.value.keys if isinstance(k, ast.Constant)]
-    ctx.need(table is not None, "arg2parse_emit_type vanished from ground_truth")
+    ctx.need(table is not None, "the --truth kind table vanished from ground_truth")
     for t in truth:
         ok = t in table
         ctx.ob(
